@@ -9,6 +9,14 @@ use super::{
     inline::{parse_condition, parse_inline_conditional, tokenize_inline_content},
 };
 
+/// The text after the colon of an else branch marker, whatever its spacing
+/// (`- else:`, `-else:`, `- else :`).
+fn else_branch_content(trimmed: &str) -> Option<&str> {
+    let rest = trimmed.strip_prefix('-')?.trim_start();
+    let rest = rest.strip_prefix("else")?.trim_start();
+    rest.strip_prefix(':')
+}
+
 pub fn looks_like_conditional(content: &str) -> bool {
     content.starts_with('{') && content.contains(':')
 }
@@ -70,7 +78,7 @@ pub fn parse_conditional(
         let first_body = lines[first_body_line_index].content.trim();
         if first_body.starts_with('-')
             && !first_body.starts_with("->")
-            && !first_body.starts_with("- else:")
+            && else_branch_content(first_body).is_none()
         {
             // Check that the branch looks like "- case_expr: body" (has a colon after stripping -)
             let branch_content = first_body.trim_start_matches('-').trim_start();
@@ -164,17 +172,9 @@ pub fn parse_conditional(
             return Ok(nodes);
         }
 
-        if trimmed == "- else:" {
-            in_else = true;
-            *line_index += 1;
-            if body_line.had_newline {
-                when_false.push(Node::Newline);
-            }
-            continue;
-        }
-
-        // `- else: inline_content` on a single line
-        if let Some(else_content) = trimmed.strip_prefix("- else:") {
+        // `- else:` alone or `- else: inline_content` on a single line (`-else:` and
+        // `- else :` are the same thing)
+        if let Some(else_content) = else_branch_content(trimmed) {
             in_else = true;
             *line_index += 1;
             let rest = else_content.trim();
